@@ -18,6 +18,7 @@ fields; that observation is what is compared with the Coq model's state (same en
 """
 import _thread
 import collections
+import os
 import inspect
 import sys
 import threading as _real_threading
@@ -127,6 +128,8 @@ class Worker:
         self.seen = None
         self.seen_now = None
         self.my_lock = None
+        self.fail = 0
+        self.refused = 0
         self.key = None
 
     def _run(self):
@@ -149,7 +152,7 @@ def op_enabled(op):
     if kind == "acq":
         return not op[1]._locked
     if kind == "flock":
-        return op[1].compatible_fd(op[2], op[3])
+        return bool(op[4]) or op[1].compatible_fd(op[2], op[3])     # an injected fault returns at once
     return True                     # rel, close
 
 
@@ -248,6 +251,9 @@ class Kernel:
         self.fd_ino = {}
         self.fd_owner = {}
         self.held = {}             # fd -> (inode, mode), insertion order
+        self.fd_path = {}
+        self.forced = set()        # descriptors whose lock was granted by an injected kernel fault
+        self.unlinked_held = []    # rule: a lock file that some live descriptor holds a flock on is never unlinked
         self.fileops = set()       # kinds of file operations seen on lock files
 
     def bind(self, path):
@@ -266,6 +272,23 @@ class Kernel:
     def modes(self):
         return [m for (_, m) in self.held.values()]
 
+    def path_conflict(self):
+        """Per-path exclusion, stated on the kernel: two live descriptors that were opened through the SAME path and
+        both hold a flock lock must be compatible (whatever inodes they ended up on)."""
+        by_path = collections.defaultdict(list)
+        for fd, (ino, m) in self.held.items():
+            if fd not in self.forced:
+                by_path[self.fd_path[fd]].append((fd, ino, m))
+        for path, hs in by_path.items():
+            if len(hs) > 1 and any(m == "w" for _, _, m in hs):
+                return "lock file %r is held by %s at the same time" % (
+                    os.path.basename(path), ", ".join("thread %s (inode %d, %s)" % (self.fd_owner[f], i, m) for f, i, m in hs))
+        return None
+
+    def holders_of_path(self, path):
+        ino = self.paths.get(path)
+        return [fd for fd, (i, _) in self.held.items() if i == ino]
+
 
 class FakeFcntl:
     LOCK_SH = 1
@@ -280,10 +303,18 @@ class FakeFcntl:
         w = sched.current()
         mode = "w" if cmd == self.LOCK_EX else "r"
         self.kernel.fileops.add("flock")
-        sched.yield_point(("flock", self.kernel, fd, mode))
+        fault = getattr(w, "fail", 0) if w is not None else 0
+        sched.yield_point(("flock", self.kernel, fd, mode, fault))
         if w is not None and w.abort:
             raise Aborted()
-        assert self.kernel.compatible_fd(fd, mode)
+        if fault == 1:                       # the environment makes flock fail (ENOLCK, EIO, ...)
+            w.fail = 0
+            raise OSError(37, "No locks available")
+        if fault == 2:                       # the kernel misbehaves once: grants although incompatible
+            w.fail = 0
+            self.kernel.forced.add(fd)
+        else:
+            assert self.kernel.compatible_fd(fd, mode)
         self.kernel.held[fd] = (self.kernel.fd_ino[fd], mode)
 
 
@@ -298,6 +329,10 @@ class FakeFile:
             kernel.path_key[path] = w.key
         kernel.fileops.add("open")
         kernel.fd_ino[self.fd] = kernel.bind(path)
+        kernel.fd_path[self.fd] = path
+        if os.path.isdir(os.path.dirname(path)):     # directory scans of the real code must see the lock file
+            with open(path, "a"):
+                pass
         kernel.fd_owner[self.fd] = w.idx if w is not None else None
         self.closed = False
 
@@ -347,7 +382,13 @@ class FakeOs:
             raise Aborted()
         if path not in self._kernel.paths:
             raise FileNotFoundError(path)
+        holders = self._kernel.holders_of_path(path)
+        if holders:
+            self._kernel.unlinked_held.append("%s of lock file %r while thread(s) %s hold a flock lock on it" % (
+                kind, self._os.path.basename(path), sorted(set(self._kernel.fd_owner[f] for f in holders))))
         del self._kernel.paths[path]
+        if self._os.path.lexists(path):
+            self._os.remove(path)
 
     def remove(self, path, **k):
         return self._unlink(path, "remove")
@@ -535,6 +576,7 @@ class FileSystem:
         self.sched = Scheduler()
         CoopLock.sched = self.sched
         nprocs = 1 + max([p for p, _ in progs] + [0])
+        self.fault_mode = any(len(c) > 2 and c[2] == 2 for _, prog in progs for c in prog)
         self.locks = [self.patch.pathutils.RwLock("/nonexistent/.Radicale.lock") for _ in range(nprocs)]
         self.sched.start([self._body(p, prog) for p, prog in progs])
 
@@ -545,14 +587,26 @@ class FileSystem:
     def _body(self, p, prog):
         lock = self.locks[p]
 
+        fault_mode = self.fault_mode
+
         def body(w):
             w.proc = p
-            for mode, nq in prog:
+            for cyc in prog:
+                mode, nq = cyc[0], cyc[1]
+                fail = cyc[2] if len(cyc) > 2 else 0
                 w.mode = mode
                 w.phase = "acquire"
                 w.seen_now = None
+                w.fail = fail
                 cm = lock.acquire(mode)
-                cm.__enter__()
+                try:
+                    cm.__enter__()
+                except RuntimeError:
+                    if not (fail or fault_mode):
+                        raise
+                    w.refused += 1          # an expected refusal: the caller (a request) fails, the thread goes on
+                    w.phase = "idle"
+                    continue
                 w.phase = "body"
                 for _ in range(nq):
                     w.seen = w.seen_now = lock.locked
@@ -568,7 +622,7 @@ class FileSystem:
         if kind == "flock":
             return 1
         if kind == "close":
-            return 11
+            return 15 if w.phase == "acquire" else 11
         if kind == "acq":
             return 2 if w.phase == "acquire" else 6
         if w.phase == "acquire":
@@ -600,6 +654,9 @@ class FileSystem:
         for w in body:
             if w.seen_now is not None and w.seen_now != w.mode:
                 raise Violation("`locked` answered %r to a thread holding the lock in mode %r" % (w.seen_now, w.mode))
+        pc_ = self.kernel.path_conflict()
+        if pc_:
+            raise Violation(pc_)
         for p, lk in enumerate(self.locks):
             if lk._lock._locked:
                 continue
@@ -983,8 +1040,102 @@ class CacheSystem:
             if len(ts) > 1:
                 raise Violation("threads %r are inside the cache section of key %r %r at the same time (file-lock back-end)" % (
                     ts, key, CACHE_KEYS[key]))
+        pc_ = self.kernel.path_conflict()
+        if pc_:
+            raise Violation(pc_)
         if not s.all_done() and not any(s.enabled(i) for i in range(len(s.workers))):
             raise Violation("deadlock: no thread can take a step, unfinished: %r" % [w.idx for w in s.workers if not w.done])
 
 
 SYSTEMS["cache"] = CacheSystem
+
+
+ITEM = ("BEGIN:VCALENDAR\r\nPRODID:-//v//EN\r\nVERSION:2.0\r\nBEGIN:VEVENT\r\nUID:%s\r\nSUMMARY:s\r\n"
+        "DTSTART:20130901T180000Z\r\nDTEND:20130901T190000Z\r\nEND:VEVENT\r\nEND:VCALENDAR\r\n")
+
+
+class SweepSystem:
+    """The item-cache critical section of the file-lock back-end WITH stale entries present: readers call the real
+    Collection._get(href) under the shared storage lock on items whose files were written behind the server's back (no
+    cache entry) while the cache folder holds the entry of a deleted item and a left-over .Radicale.tmp-* directory:
+    every reader misses, takes the per-collection cache lock and runs _clean_item_cache() inside the section.
+    progs: per thread a list of item numbers.  Monitor only: a lock file that some live descriptor holds a flock on is
+    never unlinked; per-path exclusion on the kernel's flock table; no exception; no deadlock."""
+    kind = "sweep"
+
+    def __init__(self, progs):
+        import logging
+        import pickle
+        import tempfile
+        from radicale import config
+        logging.getLogger("radicale").setLevel(logging.CRITICAL)
+        self.progs = progs
+        self.tmp = tempfile.mkdtemp(prefix="rv-c11sweep-")
+        self.kernel = Kernel()
+        self.patch = Patched(self.kernel)
+        self.patch.__enter__()
+        from radicale.storage.multifilesystem import cache as cache_mod
+        self.cache_mod, self.saved_cache_os = cache_mod, cache_mod.os
+        cache_mod.os = FakeOs(self.kernel, cache_mod.os)
+        self.sched = Scheduler()
+        CoopLock.sched = self.sched
+        from radicale.storage import multifilesystem
+        conf = config.load()
+        conf.update({"storage": {"type": "multifilesystem", "filesystem_folder": self.tmp, "_filesystem_fsync": "False"}},
+                    "c11", privileged=True)
+        self.storage = multifilesystem.Storage(conf)
+        self.Coll = multifilesystem.Collection
+        coll_dir = os.path.join(self.tmp, "collection-root", "u", "c")
+        cache_dir = os.path.join(coll_dir, ".Radicale.cache", "item")
+        os.makedirs(cache_dir)
+        with open(os.path.join(coll_dir, ".Radicale.props"), "w") as f:
+            f.write('{"tag": "VCALENDAR"}')
+        for n in sorted(set(i for p in progs for i in p)):
+            with open(os.path.join(coll_dir, "i%d.ics" % n), "w", newline="") as f:
+                f.write(ITEM % ("i%d" % n))
+        with open(os.path.join(cache_dir, "gone.ics"), "wb") as f:      # cache entry of a deleted item
+            pickle.dump(("0" * 64, "gone", "etag", "text", "gone.ics", "VEVENT", 0, 1), f)
+        os.makedirs(os.path.join(cache_dir, ".Radicale.tmp-left"))        # a writer's temporary directory
+        CoopLock.private_for_workers = True
+        self.sched.start([self._body(p) for p in progs])
+
+    def close(self):
+        import shutil
+        self.sched.abort()
+        self.cache_mod.os = self.saved_cache_os
+        self.patch.__exit__()
+        shutil.rmtree(self.tmp, ignore_errors=True)
+
+    def _body(self, prog):
+        storage, Coll = self.storage, self.Coll
+
+        def body(w):
+            for n in prog:
+                w.key = 5
+                w.phase = "acquire"
+                with storage.acquire_lock("r", "user"):
+                    coll = Coll(storage, "/u/c/")
+                    item = coll._get("i%d.ics" % n, verify_href=False)
+                    if item is None or item.uid != "i%d" % n:
+                        raise RuntimeError("item i%d not served: %r" % (n, item))
+                w.phase = "idle"
+        return body
+
+    def observe(self):
+        return []
+
+    def monitor(self):
+        s, k = self.sched, self.kernel
+        for w in s.workers:
+            if w.error is not None:
+                raise Violation("thread %d raised %r" % (w.idx, w.error))
+        if k.unlinked_held:
+            raise Violation("a held lock file is unlinked: " + k.unlinked_held[0])
+        pc_ = k.path_conflict()
+        if pc_:
+            raise Violation(pc_)
+        if not s.all_done() and not any(s.enabled(i) for i in range(len(s.workers))):
+            raise Violation("deadlock: no thread can take a step, unfinished: %r" % [w.idx for w in s.workers if not w.done])
+
+
+SYSTEMS["sweep"] = SweepSystem
